@@ -398,6 +398,33 @@ func init() {
 				}
 				n.Add(pI(i), Shuffled(r, vals)...)
 			}},
+		// lists that repeat an entry, literally or after conversion to strings: the listed values are a set
+		AtomKind{Name: "containsSomeRepeatedEntries", Constraint: func(i int) []Constraint {
+			return []Constraint{{Key: "containsSome", Value: YSeqOf(Str("yes"), Str("yes"), Str("1"), Int(1))}}
+		}, Assign: func(n *Node, i int, t bool, r *rand.Rand) {
+			if t {
+				n.Add(pI(i), pick(r, strs("yes"), strs("1", "extra"), strs("yes", "1"))...)
+			} else {
+				n.Add(pI(i), pick(r, strs("extra"), strs("extra", "other"))...)
+			}
+		}},
+		AtomKind{Name: "containsAllRepeatedEntries", Constraint: func(i int) []Constraint { return []Constraint{CList("containsAll", "yes", "y2", "yes", "y2", "yes")} },
+			Assign: func(n *Node, i int, t bool, r *rand.Rand) {
+				if t {
+					n.Add(pI(i), strs("yes", "y2", "extra")[:2+r.Intn(2)]...)
+				} else {
+					n.Add(pI(i), pick(r, strs("yes"), strs("extra"), strs("y2", "extra"))...)
+				}
+			}},
+		AtomKind{Name: "inRepeatedEntries", PerValue: true, Constraint: func(i int) []Constraint {
+			return []Constraint{{Key: "in", Value: YSeqOf(Str("yes"), Str("yes"), Str("y2"), Str("yes"))}}
+		}, Assign: func(n *Node, i int, t bool, r *rand.Rand) {
+			if t {
+				n.Add(pI(i), StrV(pick(r, "yes", "y2")))
+			} else {
+				n.Add(pI(i), StrV(pick(r, "zzz", "Yes")))
+			}
+		}},
 		AtomKind{Name: "countRange20To30", Constraint: func(i int) []Constraint {
 			return []Constraint{CScalar("minCount", Int(20)), CScalar("maxCount", Int(30))}
 		}, Assign: func(n *Node, i int, t bool, r *rand.Rand) {
